@@ -29,3 +29,25 @@ func H_C13_overlap() {
 	}
 	vReach("end")
 }
+
+// H_C13_overlap_truncation_keeps_suffix: when the overlap has to be cut down to MaxOverlap, what remains is still the
+// end of the chunk, with its sentences in their original order.
+//
+//symgo:harness prop=C13 kernel=K3-overlap-truncation loop=256
+//symgo:desc chunk = three sentences "Xa bb. Yc dd. Ze ff." whose capitals X, Y, Z are symbolic over {A, B, C}; sentence or paragraph strategy (enumerated), Size 3, MaxOverlap enumerated 2..19 (so that zero, one or two whole sentences survive truncation): the overlap (whitespace aside) is a suffix of the chunk and has at most MaxOverlap bytes
+func H_C13_overlap_truncation_keeps_suffix() {
+	// (single letters followed by a period are read as initials, not sentences: two-word sentences)
+	x, y, z := vAnyByteOf("ABC"), vAnyByteOf("ABC"), vAnyByteOf("ABC")
+	text := string([]byte{x, 'a', ' ', 'b', 'b', '.', ' ', y, 'c', ' ', 'd', 'd', '.', ' ', z, 'e', ' ', 'f', 'f', '.'})
+	cfg := OverlapConfig{Strategy: OverlapStrategy(vAnyIntIn(2, 3)), Size: 3, MinOverlap: 0, MaxOverlap: vAnyIntIn(2, 19), PreserveWords: true}
+	res := NewOverlapGeneratorWithConfig(cfg).GenerateOverlap(text)
+	vAssert("result", res != nil)
+	ov := res.Text
+	vAssert("overlap-within-max", len(ov) <= cfg.MaxOverlap)
+	a, b := vNonWS(ov), vNonWS(text)
+	vAssert("overlap-not-longer-than-chunk", len(a) <= len(b))
+	for i := range a {
+		vAssert("overlap-is-suffix-of-chunk", a[i] == b[len(b)-len(a)+i])
+	}
+	vReach("end")
+}
